@@ -318,7 +318,7 @@ def interesting_value(rng, f):
 
 BYTE_KINDS = ["flip", "set", "burst", "zero", "trunc", "del", "dup", "ins", "swap", "append"]
 CUT_VALUES = [0, 1, 2, 3, 6, 7, 8, 15, 16, 31, 63, 127, 128, 255, 256, 511, 1023, 65535]
-FIELD_KINDS = ["f_frag_len", "f_block_cut", "f_coeff_huge", "f_frag_alias", "f_fixed", "f_uint", "f_bool", "f_coeff", "f_offsets", "f_picnum", "f_trunc_unit", "f_unit_drop", "f_unit_dup", "f_lenbyte", "f_ld_resize"]
+FIELD_KINDS = ["f_wrap_unit", "f_frag_len", "f_block_cut", "f_coeff_huge", "f_frag_alias", "f_fixed", "f_uint", "f_bool", "f_coeff", "f_offsets", "f_picnum", "f_trunc_unit", "f_unit_drop", "f_unit_dup", "f_lenbyte", "f_ld_resize"]
 ALL_KINDS = BYTE_KINDS + FIELD_KINDS
 
 
@@ -434,6 +434,26 @@ def gen_fault(rng, fmap, kind, data_len):
         span = rng.choice([1, 1, 2, 8, 24])
         bit = f.start + rng.randrange(span)
         return {"k": "flip", "bit": bit, "field": f.name}, bit // 8
+    if kind == "f_wrap_unit":
+        # insert, in front of a data unit, a parse_info of a padding / auxiliary
+        # / reserved parse code whose next_parse_offset covers nothing, exactly
+        # the following unit(s), or part of one: data units "wrapped" inside the
+        # payload of another (previous offsets of the rest are re-linked)
+        us = [u for u in fmap.units if u["code"] is not None]
+        if not us:
+            return None
+        k = rng.randrange(len(us))
+        u = us[k]
+        code = rng.choice([0x30, 0x20, 0x30, 0x20, 0x40, 0x08, 0x01, 0x60, 0xFF, 0x80])
+        span = rng.choice([0, 0, u["end"] - u["start"], u["end"] - u["start"], (us[min(k + 1, len(us) - 1)]["end"] - u["start"]), rng.randrange(0, 30)])
+        prev = 0
+        if k > 0:
+            prev = u["start"] - us[k - 1]["start"]
+        pi = b"BBCD" + bytes([code]) + (13 + span).to_bytes(4, "big") + prev.to_bytes(4, "big")
+        ops = [{"k": "ins", "at": u["start"], "hex": pi.hex()}]
+        # the unit that now follows the inserted header sees it as its predecessor
+        ops.append({"k": "setbits", "bit": (u["start"] + 13 + 9) * 8, "n": 32, "val": 13, "field": "previous_parse_offset"})
+        return {"k": "seq", "ops": ops, "code": code, "span": span}, u["start"]
     if kind == "f_frag_len":
         # fragment_data_length is carried by every fragment but no rule ties it
         # to the data: any value stays conformant.  Optionally the fragment also
